@@ -3,20 +3,106 @@ import Blue.Proofs.Compaction
 import Blue.Proofs.LevelSlice
 import Blue.Proofs.SelectorClosed
 import Blue.Proofs.BoundsFixed
-/-! Property C01: the theorems the check builds and audits (spike inventory; the build phase
-    completes the list from DESIGN Appendix C.0). -/
-#print axioms Blue.Spec.load_visible
-#print axioms Blue.Spec.ingest_preserves
-#print axioms Blue.Spec.compaction_preserves
-#print axioms Blue.Spec.compaction_reads_unchanged
+import Blue.Proofs.Kvs
+/-! # Property C01 — point reads return the latest write, whatever the tree did in between
+
+Property theorems only.  The store is modelled as the list of its components in *search order*
+(memtable, immutable memtable, level-0 files by descending newest timestamp, then each deeper
+level's files); a version is `(key, timestamp)`.  `Blue.Kvs.kvsLoad` is the executable model of
+`KeyValueStore::load` on a dumped state — the function the correspondence check runs against the
+implementation after every operation of every history — and `Blue.Kvs.invB` is the decidable form
+of the tree invariants I1 (levels ≥ 1 sorted, ranges at most touching) ∧ I2 ("newer above").
+
+What is proved: on every state satisfying I1 ∧ I2 the read returns exactly the visible version
+(`read_returns_latest`); ingest/flush, every *closed* compaction with any outputs and any cut
+points (with or without GC drops) and trivial moves preserve I2 and, when nothing is dropped,
+every read at every timestamp (`step_*`); the selector's un-expanded slices are closed
+(`selector_slices_closed`).  What is checked per run rather than proved: that the implementation's
+reached states satisfy `invB`, and that every compaction the real selector chose is `closedB` on
+the state it was chosen in (both are evaluated by the driver on the dumped states).
+`recover` (level reassignment on reopen) does **not** preserve I1/I2 — known finding D-9. -/
+namespace Blue.Props.C01
+open Blue.Spec Blue.Kvs
+
+/-- **reads return the latest write**: if the decidable invariant check passes on a store state,
+    `KeyValueStore::load` returns exactly the newest version not newer than `t` of the union of
+    everything the store holds, and nothing if there is none -/
+theorem read_returns_latest (s : KState) (h : invB s = true) (k t : Nat) :
+    (kvsLoad s k t = none → NoneVisible (allComps s).flatten k t)
+    ∧ (∀ b, kvsLoad s k t = some b → IsVisible (allComps s).flatten k t b) :=
+  kvsLoad_visible s h k t
+
+/-- the abstract form: early-exit lookup through components ordered "newer above" -/
+theorem load_visible {K : Type} [DecidableEq K] (cs : List (List (Ver K))) (k : K) (t : Nat)
+    (h : NewerAbove cs) :
+    match load cs k t with
+    | none => NoneVisible cs.flatten k t
+    | some b => IsVisible cs.flatten k t b := Blue.Spec.load_visible cs k t h
+
+/-- `Version::load`'s `lower_bound..upper_bound` slices find what searching whole levels finds -/
+theorem tree_lookup_slices (l0 : List (List (Ver Nat))) (levels : List (List TFile))
+    (hs : ∀ l ∈ levels, LevelSorted l) (hw : ∀ l ∈ levels, ∀ f ∈ l, f.Wf) (k t : Nat) :
+    treeLoad l0 levels k t = load (l0 ++ levels.flatMap (fun l => l.map (·.vers))) k t :=
+  treeLoad_eq l0 levels hs hw k t
+
+/-- flush / ingest: a component newer than everything stored goes on top -/
+theorem step_ingest {K : Type} [DecidableEq K] (c : List (Ver K)) (cs : List (List (Ver K)))
+    (h : NewerAbove cs) (hn : ∀ a ∈ c, ∀ b ∈ cs.flatten, a.1 = b.1 → b.2 < a.2) :
+    NewerAbove (c :: cs) := ingest_preserves c cs h hn
+
+/-- compaction (any outputs made of input versions, any cut points, GC drops allowed): a *closed*
+    selection keeps "newer above" -/
+theorem step_compaction {K : Type} [DecidableEq K] (pre : Tagged K) (post outs : List (List (Ver K)))
+    (h : NewerAbove (pre.map (·.2) ++ post)) (hclosed : Closed pre)
+    (hsub : ∀ e ∈ outs.flatten, e ∈ (inputs pre).flatten) (houts : NewerAbove outs) :
+    NewerAbove (kept pre ++ outs ++ post) := compaction_preserves pre post outs h hclosed hsub houts
+
+/-- … and when nothing is dropped, no read at any key and timestamp changes -/
+theorem step_compaction_reads {K : Type} [DecidableEq K] (pre : Tagged K) (post outs : List (List (Ver K)))
+    (h : NewerAbove (pre.map (·.2) ++ post)) (hclosed : Closed pre)
+    (hsame : ∀ e, e ∈ outs.flatten ↔ e ∈ (inputs pre).flatten) (houts : NewerAbove outs)
+    (k : K) (t : Nat) :
+    load (kept pre ++ outs ++ post) k t = load (pre.map (·.2) ++ post) k t :=
+  compaction_reads_unchanged pre post outs h hclosed hsame houts k t
+
+/-- the driver's decidable closedness check is sound for `Closed` -/
+theorem closed_check_sound (pre : Tagged Nat) (h : closedB pre = true) : Closed pre := closedB_sound pre h
+
+/-- a selection read off ranges that widen with depth and cover what they take is closed -/
+theorem selector_slices_closed (s : Selection) (levels : List (Nat × List TFile))
+    (hlv : levels.Pairwise (fun a b => a.1 < b.1)) (hup : ∀ l ∈ levels, l.1 ≤ s.upper)
+    (hwf : ∀ p ∈ levels, ∀ f ∈ p.2, f.Wf) (hok : s.Ok levels) : Closed (tagLevels s levels) :=
+  selection_closed s levels hlv hup hwf hok
+
+/-- why closedness is needed (the shape of the trivial-move defect D-25 and of D-8): an input above
+    and below a kept component sharing a key — the read returns the kept, older version -/
+theorem open_compaction_stale_read_witness :
+    let pre : Tagged Nat := [(true, [(1, 9)]), (false, [(1, 5)]), (true, [(1, 2)])]
+    NewerAbove (pre.map (·.2)) ∧
+    load (pre.map (·.2)) 1 10 = some (1, 9) ∧
+    load (kept pre ++ [[(1, 9), (1, 2)]]) 1 10 = some (1, 5) := open_compaction_stale_read
+
+/-! non-vacuity: a state with versions of one key in memtable, level 0 and level 1 passes the check -/
+example :
+    let s : KState := { mem := [(1, 9)], imm := none,
+                        l0 := [⟨0, 1, 7, [(0, 7), (1, 6)]⟩], levels := [[⟨1, 2, 4, [(1, 4), (2, 3)]⟩]] }
+    invB s = true ∧ kvsLoad s 1 8 = some (1, 6) ∧ kvsLoad s 1 5 = some (1, 4) := by decide +kernel
+
+end Blue.Props.C01
+
+#print axioms Blue.Props.C01.read_returns_latest
+#print axioms Blue.Props.C01.load_visible
+#print axioms Blue.Props.C01.tree_lookup_slices
+#print axioms Blue.Props.C01.step_ingest
+#print axioms Blue.Props.C01.step_compaction
+#print axioms Blue.Props.C01.step_compaction_reads
+#print axioms Blue.Props.C01.closed_check_sound
+#print axioms Blue.Props.C01.selector_slices_closed
+#print axioms Blue.Props.C01.open_compaction_stale_read_witness
 #print axioms Blue.Spec.pieces_newer
 #print axioms Blue.Spec.swap_disjoint_blocks
 #print axioms Blue.Spec.level_reorder
 #print axioms Blue.Spec.l0_newer
-#print axioms Blue.Spec.slice_load
-#print axioms Blue.Spec.treeLoad_eq
-#print axioms Blue.Spec.selection_closed
 #print axioms Blue.Spec.sliceR_mem_iff
 #print axioms Blue.Spec.exit_covers
-#print axioms Blue.Spec.open_compaction_stale_read
 #print axioms Blue.Spec.lower_bound_mutant_misses
